@@ -250,6 +250,13 @@ def _replay(cex, v, vm):
                              sthr="Some(%s)" % rust_f32(cex_get(cex, 'score_threshold')) if vm.notes['st_given'] else "None")
 
 
+# the geometry NMS relies on: the cheap pre-filter must not zero the coverage of overlapping boxes (harness shared with C08)
+from kani_engine import KH
+KANI_MODULES = ["c08_geometry"]
+KANI = [KH("c08_geometry::c08_too_far_sound_grid", "quick", 1800,
+           "too_far never rejects overlapping axis-aligned boxes (a rejected pair would count as coverage 0 and survive suppression)",
+           "left/top k/4 in [-4,4], width/height k/2 in (0,4], exact aspects", ["similari::utils::bbox::Universal2DBox::too_far"])]
+
 N = "similari::utils::nms::nms"
 MIR = [
     MQ("c14_nms_1", "quick", _mk_nms(1), "nms on 1 box: filter and identity", "1 box", [N], spec_calls=_nms_calls, replay=_replay),
